@@ -142,6 +142,44 @@ Definition global_custom (kws : list string) (g : global_keys) : global_out :=
      o_tcp := line_to_slice (g_tcp g) |}.
 
 (* ------------------------------------------------------------------ *)
+(* what is written.  The template renders every line of backend.CustomConfig as
+       "    {{ $snippet }}"  + end of line
+   and template.writeToDisk() writes the rendered bytes as they are: `write` is the
+   identity.  That is a HYPOTHESIS about the code after the updater; it is checked byte for
+   byte by every correspondence case that writes the files (Corr_C19.cwritten), so any
+   post-processing of the rendered text (trimming, end of line conversion ...) shows. *)
+Definition LF : string := String (ascii_of_N 10) EmptyString.
+Definition write_line (l : string) : string := "    " ++ l ++ LF.
+Fixpoint written (ls : list string) : string :=
+  match ls with
+  | [] => EmptyString
+  | l :: r => write_line l ++ written r
+  end.
+
+(* HAProxy reads a written file line by line (LF), and in a line an unquoted CR ends the
+   statement like LF does: what stands between a CR and the next LF is not read.  The first
+   word of the statement is delimited by space and tab. *)
+Definition is_cr (c : ascii) : bool := (N_of_ascii c =? 13)%N.
+Definition is_sptab (c : ascii) : bool := let n := N_of_ascii c in ((n =? 32) || (n =? 9))%N.
+
+Fixpoint cut_cr (s : string) : string :=
+  match s with
+  | EmptyString => EmptyString
+  | String c r => if is_cr c then EmptyString else String c (cut_cr r)
+  end.
+Fixpoint skip_sptab (s : string) : string :=
+  match s with
+  | EmptyString => EmptyString
+  | String c r => if is_sptab c then skip_sptab r else s
+  end.
+Fixpoint take_sptab (s : string) : string :=
+  match s with
+  | EmptyString => EmptyString
+  | String c r => if is_sptab c then EmptyString else String c (take_sptab r)
+  end.
+Definition haproxy_word (line : string) : string := take_sptab (skip_sptab (cut_cr line)).
+
+(* ------------------------------------------------------------------ *)
 (* vocabulary of the statements *)
 
 Definition nl : ascii := ascii_of_N 10.
